@@ -78,7 +78,7 @@ CHECKS.update({
         note=RENDER_NOTE, design='5/C02'),
     'C03': dict(
         technique='Coq proof: identity (a page against itself has the single Equal opcode, zero counts and no marker in any stream) for all trees via the aligned-sequences theorem about the difflib model; counts consistency; no markers when count is 0; opcode cover + extracted-model correspondence + observers (identity on every generated page and beyond the spacer cap; detection of text differences)',
-        text='Theorems: for every element tree, rule set and cap, diffing the token list against itself yields exactly one equal block, counts (0,0,0) and marker-free streams; any two token lists that are pairwise equal under the comparator give the single Equal opcode; change_count = insertions + deletions; a side whose count is 0 carries no markers; opcodes always cover both token lists contiguously; the spacer cap never removes content. Detection (different readable text implies count > 0) is decided per input by the observer and by correspondence (partial: no theorem yet).',
+        text='Theorems: for every element tree, rule set and cap, diffing the token list against itself yields exactly one equal block, counts (0,0,0) and marker-free streams; any two token lists that are pairwise equal under the comparator give the single Equal opcode; change_count = insertions + deletions; a side whose count is 0 carries no markers; opcodes always cover both token lists contiguously; the spacer cap never removes content. Detection is a theorem: every block the matcher model returns relates its elements pairwise, so with rules off change_count = 0 implies that both token lists - and, through tokenising, customisation and the spacer cap, both element trees - carry the same sequence of words, opaque elements and link targets (C03_detection, C03_detection_pages). The step from the parsed page to readable text belongs to the parser (observer).',
         note=RENDER_NOTE, design='5/C03'),
     'C09': dict(
         technique='Coq proof: html.escape output has no < > (and no quotes when asked) for all strings; every text chunk the tokeniser emits is escaped and so cannot start a tag; chunks are emitted verbatim by the marker machine; undiffable elements are one verbatim chunk + extracted-model correspondence + observer (script/style of every view are verbatim those of the inputs; deleted ones inert in a template)',
